@@ -94,6 +94,12 @@ class Iter:
     def __init__(self, items):
         self.items, self.i = list(items), 0
 
+    def __deepcopy__(self, memo):
+        # cloning an iterator copies its cursor, not the elements it walks over
+        c = Iter(self.items)
+        c.i = self.i
+        return c
+
     def rest(self):
         return self.items[self.i:]
 
@@ -568,6 +574,8 @@ class PEval:
             return [self.ev(x, env, depth) for x in e["es"]]
         if k == "Adt":
             fields = {f["f"]: self.ev(f["e"], env, depth) for f in e["fields"]}
+            if str(e["adt"]).endswith("borrow::Cow") and "0" in fields:
+                return fields["0"]          # Cow is transparent: owned and borrowed text are the same text
             if "variant" in e and e.get("variant") is not None and self.is_enum(e["adt"]):
                 return Enum(e["adt"], e["variant"], fields)
             return Struct(e["adt"], fields)
@@ -782,7 +790,7 @@ class PEval:
         if fname in ("clone", "to_owned") and len(args) == 1 and ("Clone" in path or "ToOwned" in path or "clone::" in path):
             import copy
             v0 = deref(args[0])
-            return copy.deepcopy(v0) if isinstance(v0, (Struct, Enum, list)) else v0
+            return copy.deepcopy(v0) if isinstance(v0, (Struct, Enum, list, Iter, PyMap, PySet)) else v0
         if fname in ("eq", "ne") and len(args) == 2 and ("PartialEq" in path or "cmp::" in path):
             l_, r_ = deref(args[0]), deref(args[1])
             same = (isinstance(l_, (Struct, Enum)) and isinstance(r_, (Struct, Enum)) and l_.adt == r_.adt) or \
@@ -851,7 +859,11 @@ class PEval:
             if isinstance(a0, (Struct, Enum)) and len(args) == 1:
                 fld = self.accessor_field(local, a0)
                 if fld is not None:
-                    return a0.fields.get(fld, UNKNOWN)
+                    v = a0.fields.get(fld, UNKNOWN)
+                    if self._accessor_copies and isinstance(v, (Struct, Enum, list, Iter, PyMap, PySet)):
+                        import copy
+                        return copy.deepcopy(v)     # `self.field.clone()`: the caller gets its own copy
+                    return v
             return self.call_fn(local, args, depth + 1)
         # ---- std model -------------------------------------------------------------------------------
         if path.startswith("core::mem::") and rargs and isinstance(rargs[0], Ref):
@@ -990,6 +1002,12 @@ class PEval:
                 return False
             if re.fullmatch(r"[iu](8|16|32|64|128|size)", t or ""):
                 return 0
+        if fname in ("try_from", "try_into") and len(args) == 1 and isinstance(a0, (list, Iter)) and node is not None and "t" in node:
+            # Vec<T> / &[T] -> [T; N]: succeeds exactly when the length is N (the Vec comes back untouched otherwise)
+            m = re.match(r"core::result::Result<&?(?:mut )?\[.*; (\d+)\], ", self.lib.ty_str(node["t"]))
+            if m:
+                seq = a0.rest() if isinstance(a0, Iter) else a0
+                return ok(list(seq)) if len(seq) == int(m.group(1)) else err(a0)
         if fname in ("clone", "to_owned", "cloned") and len(args) == 1 and isinstance(a0, (Struct, Enum, list)):
             import copy
             return copy.deepcopy(a0)
@@ -1047,6 +1065,9 @@ class PEval:
                 return Iter([a0.fields.get("0", UNKNOWN)] if a0.variant == "Some" else [])
             return a0
         if fname in IDENTITY_CALLS and len(args) == 1:
+            if fname in ("clone", "to_owned") and isinstance(a0, (Iter, PyMap, PySet)):
+                import copy
+                return copy.deepcopy(a0)
             return a0
         if isinstance(a0, Iter):
             if fname == "next" and len(args) == 1:
@@ -1388,6 +1409,8 @@ class PEval:
                 return list(reversed(a0))
             if fname == "chain" and len(args) == 2 and isinstance(args[1], (list, Iter)):
                 return a0 + (args[1].rest() if isinstance(args[1], Iter) else args[1])
+            if fname == "chain" and len(args) == 2 and isinstance(args[1], Enum) and args[1].adt == OPTION:
+                return a0 + ([args[1].fields.get("0", UNKNOWN)] if args[1].variant == "Some" else [])
             if fname in ("map",) and len(args) == 2:
                 return [self.apply(args[1], [x], depth) for x in a0]
             if fname == "flat_map" and len(args) == 2:
@@ -1553,6 +1576,12 @@ class PEval:
                     return some(a0[len(x):]) if a0.startswith(x) else NONE
                 if fname == "strip_suffix":
                     return some(a0[:len(a0) - len(x)]) if x and a0.endswith(x) else (some(a0) if not x else NONE)
+                if fname == "trim_matches" and x:
+                    while a0.startswith(x):
+                        a0 = a0[len(x):]
+                    while a0.endswith(x):
+                        a0 = a0[:len(a0) - len(x)]
+                    return a0
                 if fname == "trim_start_matches" and x:
                     while a0.startswith(x):
                         a0 = a0[len(x):]
@@ -1571,6 +1600,57 @@ class PEval:
                     return Iter(a0.split(x)) if x else self.unknown("split on empty pattern")
                 if fname == "matches":
                     return Iter([x] * a0.count(x)) if x else self.unknown("matches of empty pattern")
+            if len(args) == 2 and (isinstance(args[1], (Closure, FnItem, Native)) or
+                                   (isinstance(args[1], list) and args[1] and all(isinstance(c, int) and not isinstance(c, bool) for c in args[1]))):
+                # a predicate / char-set pattern
+                pat = args[1]
+                def hit(ch, pat=pat):
+                    if isinstance(pat, list):
+                        return ord(ch) in pat
+                    return self.apply(pat, [ord(ch)], depth + 1)
+                def all_known(text):
+                    res = [hit(ch) for ch in text]
+                    return res if all(isinstance(r, bool) for r in res) else None
+                res = all_known(a0)
+                if res is None:
+                    return self.unknown("pattern predicate is not decided on the text")
+                if fname == "starts_with":
+                    return bool(res) and res[0]
+                if fname == "ends_with":
+                    return bool(res) and res[-1]
+                if fname == "contains":
+                    return any(res)
+                if fname in ("find", "rfind"):
+                    idx = [i for i, r in enumerate(res) if r]
+                    if not idx:
+                        return NONE
+                    i = idx[0] if fname == "find" else idx[-1]
+                    return some(len(a0[:i].encode("utf-8")))
+                if fname in ("trim_start_matches", "trim_matches", "trim_end_matches"):
+                    lo, hi = 0, len(a0)
+                    if fname != "trim_end_matches":
+                        while lo < hi and res[lo]:
+                            lo += 1
+                    if fname != "trim_start_matches":
+                        while hi > lo and res[hi - 1]:
+                            hi -= 1
+                    return a0[lo:hi]
+                if fname == "strip_prefix":
+                    return some(a0[1:]) if res and res[0] else NONE
+                if fname == "strip_suffix":
+                    return some(a0[:-1]) if res and res[-1] else NONE
+                if fname == "split":
+                    out, cur = [], ""
+                    for ch, r in zip(a0, res):
+                        if r:
+                            out.append(cur)
+                            cur = ""
+                        else:
+                            cur += ch
+                    out.append(cur)
+                    return Iter(out)
+                if fname == "matches":
+                    return Iter([ch for ch, r in zip(a0, res) if r])
             if fname == "parse" and len(args) == 1 and ret_t.startswith("core::result::Result<"):
                 inner = ret_t[len("core::result::Result<"):].split(",")[0].strip()
                 cand = self.lib.fn("<%s as core::str::traits::FromStr>::from_str" % inner)
@@ -1771,10 +1851,12 @@ class PEval:
         b = thir.body_of(fn)
         while b.get("k") == "Block" and not b["stmts"] and "tail" in b:
             b = b["tail"]
-        wrap = None
+        self._accessor_copies = False
         while b.get("k") in PASS or (b.get("k") == "Call" and b.get("fname") in (IDENTITY_CALLS | ITER_CALLS) and len(b["args"]) == 1):
             if b.get("k") == "Call" and b.get("fname") in ITER_CALLS:
                 return None  # not a plain accessor: evaluate the body (it builds an iterator)
+            if b.get("k") == "Call" and b.get("fname") in ("clone", "to_owned", "to_vec"):
+                self._accessor_copies = True
             b = b["e"] if b.get("k") in PASS else b["args"][0]
         if b.get("k") == "Field":
             base = b["e"]
